@@ -50,6 +50,9 @@ class ExcelCompiler:
 
     save_file_extensions = ('pkl', 'pickle', 'yml', 'yaml', 'json')
 
+    # set by set_value(), results stored in the workbook are stale afterwards
+    _inputs_changed = False
+
     def __init__(self, filename=None, excel=None, plugins=None, cycles=None):
         """ Build a compiler instance to organize the formula for a workbook
 
@@ -456,6 +459,7 @@ class ExcelCompiler:
             cell_or_range.value = 0 if value is None else value
 
             # reset the node + its dependencies
+            self._inputs_changed = True
             if not self.cycles:
                 self._reset(cell_or_range)
 
@@ -721,9 +725,15 @@ class ExcelCompiler:
             # stick in queue to add edges
             self.graph_todos.append(node)
 
+        def stored_value(formula, value):
+            # formula results stored in the workbook predate any set_value()
+            return None if formula and self._inputs_changed else value
+
         def build_cell(excel_cell):
-            a_cell = self.Cell(excel_cell.address, value=excel_cell.values,
-                               formula=excel_cell.formula, excel=self.excel)
+            a_cell = self.Cell(
+                excel_cell.address,
+                value=stored_value(excel_cell.formula, excel_cell.values),
+                formula=excel_cell.formula, excel=self.excel)
             self.cell_map[str(excel_cell.address)] = a_cell
             return [a_cell]
 
@@ -735,7 +745,8 @@ class ExcelCompiler:
             if isinstance(excel_range.formula, tuple):
                 for addr, value, formula in a_range.cells_to_build(excel_range):
                     if addr.address not in self.cell_map:
-                        a_cell = self.Cell(addr, value, formula, self.excel)
+                        a_cell = self.Cell(
+                            addr, stored_value(formula, value), formula, self.excel)
                         self.cell_map[addr.address] = a_cell
                         added.append(a_cell)
             else:
